@@ -1578,8 +1578,47 @@ class Interp:
         except TypeError as ex:
             raise PyRaise(ex)
 
+    def exec_guarded(self, g, body, fr):
+        """execute body under guard g (like `if g: body`), merging when possible"""
+        c = z3.simplify(zbool(g))
+        if z3.is_true(c):
+            return self.exec_block(body, fr)
+        if z3.is_false(c):
+            return
+        ft = self.feasible(c)
+        ff = self.feasible(z3.Not(c))
+        if ft and not ff:
+            self.assume(c)
+            return self.exec_block(body, fr)
+        if ff and not ft:
+            self.assume(z3.Not(c))
+            return
+        if not ft and not ff:
+            raise PathInfeasible()
+        if not self.no_merge and self.try_merge(c, body, [], fr):
+            return
+        if self.branch(c):
+            return self.exec_block(body, fr)
+
     def st_For(self, s, fr):
-        it = self.iterate(self.eval(s.iter, fr))
+        itv = self.eval(s.iter, fr)
+        if has_gitems(itv):
+            itv = as_glist(itv)
+        if isinstance(itv, GList) and not s.orelse and any(g is not True for g, _ in itv.items):
+            # guarded iteration: each element's body runs under its presence guard (merged; forks only if the body does)
+            for g, x in itv.items:
+                self.assign(s.target, pyscalar(x), fr)
+                try:
+                    if g is True:
+                        self.exec_block(s.body, fr)
+                    else:
+                        self.exec_guarded(g, s.body, fr)
+                except BreakEx:
+                    break
+                except ContinueEx:
+                    continue
+            return
+        it = self.iterate(itv)
         broke = False
         for x in it:
             self.assign(s.target, pyscalar(x), fr)
@@ -2064,9 +2103,19 @@ class Interp:
                 out.append((guard, val))
                 return
             gen = e.generators[gi]
-            for x in self.iterate(self.eval(gen.iter, cfr)):
+            itv = self.eval(gen.iter, cfr)
+            if has_gitems(itv):
+                itv = as_glist(itv)
+            if isinstance(itv, GList):
+                pairs = list(itv.items)
+            else:
+                pairs = [(True, x) for x in self.iterate(itv)]
+            for g0, x in pairs:
                 self.assign(gen.target, pyscalar(x), cfr)
                 g = guard
+                if g0 is not True:
+                    g = zbool(g0) if g is True else z3.And(g, zbool(g0))
+                    guarded[0] = True
                 ok = True
                 for c in gen.ifs:
                     t = self.truth(self.eval(c, cfr))
